@@ -156,7 +156,7 @@ theorem a_ret : ∀ st, M (n + 1) st → (parseReturnStatement cfg st).isSome = 
   split
   next hc =>
     have hpe : st.peek.type ≠ .eof := by
-      simp only [Bool.and_eq_true, bne_iff_ne] at hc; exact hc.1.2
+      simp only [Bool.and_eq_true, bne_iff_ne] at hc; exact hc.1.1.2
     have h2 := hE.peek hpe
     have a := next_len st
     refine bind_ok (fun r hr => st_exprI hr) hE.next (ih.exprI _ _ _ (by decide) ⟨hE.next, by omega⟩) ?_
@@ -437,6 +437,8 @@ theorem c_rem (hT : TablesOk cfg) : ∀ left prec st, 1 ≤ prec → M (n + 1) s
   rw [parseRemaining]
   split
   next hc =>
+    split
+    · rfl
     split
     · rfl
     · have hk : (lookup cfg.infixFns st.peek.type).isSome = true := by
